@@ -4,7 +4,7 @@ tier="${1:-quick}"
 cd "$(dirname "$0")/.."
 rc=0
 for p in $(.venv/bin/python -c "import json;print(' '.join(c['property_id'] for c in json.load(open('MANIFEST.json'))['checks']))"); do
-  ./check "$p" "$tier" 2>&1 | grep -v "WARNING conda" | grep -E "VIOLATION|CHECKER|UNDECIDED|$tier:" | cut -c1-220
+  ./check "$p" "$tier" 2>&1 | grep -v "WARNING conda" | grep -E "VIOLATION|CHECKER|UNDECIDED|$tier:|^  note: .*model disagrees" | cut -c1-420
   e=$?
   .venv/bin/python - "$p" <<'PY' || rc=1
 import json, sys, jsonschema
